@@ -617,6 +617,37 @@ func (r *runner) runAll() {
 		}
 	}
 
+	// F3b: the float verbs - the shape built around strconv's digit string (sign, '#', zeros between sign and digits, left
+	// alignment, width): Boolean / Integer / Float x e E f g G a A x every flag set x precisions x widths around the
+	// unpadded length; a sample of ~250 goes to the model tie (float_shape_check: observed text = go_fmt_float_spec)
+	shapeVals := []Val{vFloat(-1.5), vFloat(1.5), vFloat(0), vFloat(math.Copysign(0, -1)), vFloat(123456.789), vFloat(-1e-7), vFloat(1e21),
+		vFloat(math.Inf(1)), vFloat(math.Inf(-1)), vFloat(math.NaN()), vInt(0), vInt(-7), vInt(42), vBool(true)}
+	shapeStride := 151
+	if thorough {
+		shapeStride = 13
+	}
+	idx = 0
+	for _, v := range shapeVals {
+		for _, l := range "eEfgGaA" {
+			for _, fl := range subsets("0#+ -") {
+				for _, p := range []int{-1, 0, 3} {
+					natural := formatCase(v, sStr(Directive{Flags: fl, Width: -1, Prec: p, Letter: byte(l)}.String()))
+					if natural.Err != "" {
+						continue
+					}
+					nl := runeLen(natural.Text)
+					for _, dw := range []int{-1, 1, 2, 5} {
+						if nl+dw < 1 {
+							continue
+						}
+						idx++
+						r.one(v, sStr(Directive{Flags: fl, Width: nl + dw, Prec: p, Letter: byte(l)}.String()), "float-shape", (idx+int(r.cfg.Seed))%shapeStride == 0)
+					}
+				}
+			}
+		}
+	}
+
 	// F4: per-type format maps x random values
 	nMaps := 20000
 	mapsCoq := 400
